@@ -31,9 +31,15 @@ import Glom.Model.C01
       has_dict      instances of this container subclass have a __dict__: setattr
                     succeeds but the attribute is invisible to the cell (reported
                     as a *hidden* write)
-      scope         the cell stands for glom's scope mapping (S-rooted paths): item
-                    reads see the caller's scope variables; writes bind in a scope
-                    frame that does not outlive the call (the cell is unchanged)
+      scope         the cell stands for the scope *frame* an S-rooted destination starts from
+                    (`scope[UP]`, a ChainMap): initially it holds the caller's scope variables
+                    (glom copies the mapping handed to `glom(scope=…)` into its root frame — the
+                    caller's own mapping is never written, which the harness observes apart);
+                    item reads see them, an item assignment binds in the frame (the cell is
+                    updated like a dict: later steps of the same chain see the binding, the
+                    harness reads the frame back from a later chain step); setattr lands on
+                    the ChainMap object where no variable lookup sees it (cell unchanged);
+                    deletions are C12's (frame unchanged there)
 -/
 namespace Glom.Mut
 open Glom
@@ -96,7 +102,6 @@ def pySetitem (env : MEnv) (h : Heap) (dest key v : Val) : Except PyExc Wr :=
     | some (.dict c es) =>
       if env.flag c "raise_setitem" then .error (exc "RuntimeError")
       else if !key.hashable h then .error (exc "TypeError")
-      else if env.flag c "scope" then .ok { heap := h }
       else .ok { heap := h.set a (.dict c (setEntry es key v)), cell := some a }
     | some (.list c xs) =>
       if env.flag c "raise_setitem" then .error (exc "RuntimeError")
@@ -254,6 +259,38 @@ inductive Nest where
   | leaf (v : Val)
   | node (xs : List Nest)
   deriving Repr
+
+mutual
+/-- the entries of a (nested) wildcard result, in order -/
+def Nest.leaves : Nest → List Val
+  | .leaf v => [v]
+  | .node xs => leavesL xs
+def leavesL : List Nest → List Val
+  | [] => []
+  | x :: xs => x.leaves ++ leavesL xs
+end
+
+mutual
+/-- every leaf sits below exactly `n` list levels -/
+def Nest.uniform : Nat → Nest → Bool
+  | 0, .leaf _ => true
+  | n + 1, .node xs => uniformL n xs
+  | _, _ => false
+def uniformL : Nat → List Nest → Bool
+  | _, [] => true
+  | n, x :: xs => x.uniform n && uniformL n xs
+end
+
+mutual
+def Nest.beq : Nest → Nest → Bool
+  | .leaf a, .leaf b => a == b
+  | .node xs, .node ys => Nest.beqL xs ys
+  | _, _ => false
+def Nest.beqL : List Nest → List Nest → Bool
+  | [], [] => true
+  | x :: xs, y :: ys => Nest.beq x y && Nest.beqL xs ys
+  | _, _ => false
+end
 
 /-- `_extend_children(children, item, get_handler)`: values under the keys of a
     dict / the `__dict__` of an object, else the items of an iterable; scalars,
@@ -472,5 +509,31 @@ def assignAux (env : MEnv) (sroot : Bool) (sref : Val) (missing : Missing) :
 def assign (env : MEnv) (sroot : Bool) (sref : Val) (missing : Missing) (h : Heap) (target : Val)
     (orig : List Step) (vs : ValSpec) : St × Except MErr Val :=
   assignAux env sroot sref missing (orig.length + 1) { heap := h } target orig vs
+
+/-- `_s_first_magic` of `_t_eval`: when an S-rooted path is *evaluated*, a first step spelled
+    `.name` or as a plain segment means the scope variable (`scope[name]`, "enable S.a to do
+    S['a']").  (Exact for immediate arguments: the magic catches KeyError only, a subscription also
+    TypeError — which only an unhashable key raises.) -/
+def sMagic : List Step → List Step
+  | (op, arg) :: r => if op == "." || op == "P" then ("[", arg) :: r else (op, arg) :: r
+  | [] => []
+
+/-- the steps an evaluated path performs from its root -/
+def readSteps (sroot : Bool) (rd : List Step) : List Step := if sroot then sMagic rd else rd
+
+/-- `glom(target, (Assign(path, val, missing=missing), readPath))` — a chain whose second step reads a
+    path back **after** the assignment, in the scope the chain's steps share: the Assign's result
+    (the target) is the target of the read; an S-rooted read starts from the frame the S-rooted
+    destination was bound in (`sref`).  `none`: the Assign raised, the read never ran.
+    (The *destination* of an S-rooted Assign is not evaluated natively: `Assign.glomit` re-roots it
+    at T — `path.from_t()` — and evaluates that against `scope[UP]`, without the first-step magic;
+    `assignAux` mirrors that.) -/
+def assignThenRead (env : MEnv) (sroot : Bool) (sref : Val) (missing : Missing) (h : Heap) (target : Val)
+    (orig : List Step) (vs : ValSpec) (rd : List Step) :
+    (St × Except MErr Val) × Option (Except MErr Nest) :=
+  let out := assign env sroot sref missing h target orig vs
+  (out, match out.2 with
+    | .ok r => some (fetch env out.1.heap (readSteps sroot rd) 0 (if sroot then sref else r))
+    | .error _ => none)
 
 end Glom.C11
